@@ -8,3 +8,4 @@ from . import events  # noqa: F401
 from . import entry  # noqa: F401
 from . import construct  # noqa: F401
 from . import graph  # noqa: F401
+from . import signature  # noqa: F401
